@@ -2,6 +2,7 @@
 
 Script `inc_at op*` (strings = length-prefixed UTF-8 bytes; see harness/src/bin/props.rs, coq/Props/Model.v `run`):
   1 <key> val | 2 <path> | 3 m <name> ty | 4 m <name> ty val | 5 m <name> | 6 <key> val (late include)
+  | 7 at (the entries that follow form a separate include, issued once `at` modules exist)
 """
 import itertools
 
@@ -9,7 +10,8 @@ ID = "C17"; MODEL = "props"; IMPL = "props"
 COQ_PROP = "Properties/C17.v"; COQ_DIRS = ["Common", "Props"]
 COQ_MODULE = "Props.Model"; RUN_FN = "run"
 THEOREMS = ["C17_capture_sound", "C17_capture_complete", "C17_no_foreign_entries", "C17_include_order_irrelevant",
-            "C17_typed_stable", "C17_include_keeps_slot", "C17_typed_stable_across_includes", "C17_late_keeps_type"]
+            "C17_typed_stable", "C17_include_keeps_slot", "C17_typed_stable_across_includes", "C17_late_keeps_type",
+            "C17_time_order_perm", "C17_multi_capture_sound", "C17_multi_capture_complete"]
 QUICK_N = 2500; THOROUGH_N = 150000
 CLAIM = dict(
     text="Machine-checked (Coq 8.16, axiom-free) about a byte-level model of Cfg::new (compartmentalize) and Props::update_from: "
@@ -20,8 +22,10 @@ CLAIM = dict(
          "value is that entry's (soundness); every such entry yields a property of that name holding the value of a matching "
          "entry (completeness); two configurations that agree on the entries addressing a module give it the same property names, "
          "a module nobody addresses receives nothing, and an entry for a same-depth sibling never addresses this module whatever "
-         "text the names share (alice/alicent, a/a\u00e9); including the configuration before, between or after the node creations "
-         "gives every module exactly the direct capture for its path; once a property holds a value of type T every later typed "
+         "text the names share (alice/alicent, a/a\u00e9); however the entries are partitioned into separate include_cfg calls and "
+         "wherever each call sits in the node-creation sequence, every module - created before, between or after them - ends up with "
+         "the capture in turn of all configurations in inclusion order (Vec<Cfg>, first set wins), and that is sound and complete "
+         "for the UNION of the entries (each include guarded on its own); once a property holds a value of type T every later typed "
          "read/write with another type is the InvalidInput error and changes nothing - also across configurations included while "
          "the node exists: such an include never changes a property that already has a slot, whatever the slot's state (configured, "
          "typed, or the empty slot a lookup left; Props::set is first-set-wins), so typed accesses interleaved with arbitrary late "
@@ -47,7 +51,10 @@ CLAIM = dict(
 RULE = ("scripts = flat configuration (1..12 dotted keys over a segment alphabet built to share byte prefixes: a, ab, abc, "
         "a-b, é, aé, alice, alicent; '<any>' at every depth; property names that are themselves module names or dotted) + "
         "1..6 module paths of depth 1..4 (addressed modules, their prefix-sharing siblings, ancestors, descendants) + include "
-        "position (before / between / after node creation) + typed read/write/raw operations; 25% late stream: once all nodes "
+        "position (before / between / after node creation) + typed read/write/raw operations; 32% multi-include stream: the "
+        "entries are partitioned into 2..4 separate include_cfg calls, each at its own point of the node-creation sequence, with "
+        "wildcard entries sharing the text before their first '<any>' placed in different includes and the addressed module "
+        "mostly created after all of them; 22% late stream: once all nodes "
         "exist a property is read / written / looked up through a handle, only then further one-entry configurations addressing "
         "it (specifically or through '<any>') are included, and it is re-read with another and with the same type; final state of "
         "every module's properties is dumped; 12% malformed stream (wildcard "
@@ -82,6 +89,7 @@ def e_read(m, name, ty): return [3, m] + lp(name) + [ty]
 def e_write(m, name, ty, v): return [4, m] + lp(name) + [ty, v]
 def e_raw(m, name): return [5, m] + lp(name)
 def e_late(key, val): return [6] + lp(key) + [val]
+def e_group(at): return [7, at]
 
 
 def split(script):
@@ -105,6 +113,8 @@ def split(script):
             j = take(i + 2); j = None if j is None or j + 2 > n else j + 2
         elif t == 5:
             j = take(i + 2)
+        elif t == 7:
+            j = min(i + 2, n)
         else:
             j = None
         if j is None:
@@ -145,13 +155,39 @@ def parse(script):
     return (hdr[0] if hdr else 0), entries, paths, tops
 
 
+def parse_groups(script):
+    """-> [(at, [(key, val)])]: the separate includes of the script, in script order"""
+    hdr, ops = split(script)
+    groups = [(hdr[0] if hdr else 0, [])]
+    for o in ops:
+        if o[0] == 1:
+            groups[-1][1].append((_b(o[2:2 + o[1]]), o[-1]))
+        elif o[0] == 7:
+            groups.append((o[1] if len(o) > 1 else 0, []))
+    return groups
+
+
+def accepted(groups):
+    """entries of the includes the YAML parser accepts (no repeated key inside one include)"""
+    out = []
+    for _, es in groups:
+        ks = [k for k, _ in es]
+        if len(set(ks)) == len(ks):
+            out += es
+    return out
+
+
 def _s(b):
     return b.decode("utf-8", "replace")
 
 
 def pretty(script):
     inc, entries, paths, tops = parse(script)
-    cfg = "; ".join("%s: %d" % (_s(k), v) for k, v in entries)
+    gs = parse_groups(script)
+    if len(gs) == 1:
+        cfg = "; ".join("%s: %d" % (_s(k), v) for k, v in entries)
+    else:
+        cfg = " | ".join("@%d: " % at + "; ".join("%s: %d" % (_s(k), v) for k, v in es) for at, es in gs)
     mods = ", ".join(_s(p) for p in paths)
     t = []
     for o in tops:
@@ -299,7 +335,7 @@ def walk(script, out):
     if out[i] == 9:
         l1 = (out[i + 1], None, [], [], []); i += 2
     else:
-        flag = out[i]; i += 1
+        ng = out[i]; flag = out[i + 1:i + 1 + ng]; i += 1 + ng
         p, d, r, f, i = walk_level(out, i, len(paths), tops)
         l1 = (p, flag, d, r, f)
     if i >= len(out) or out[i] != 200: raise Bad("no level-2 marker at %d" % i)
@@ -428,9 +464,10 @@ def monitor(script, out):
         return "malformed output: %s" % e
     if w is None:
         return "valid script rejected"
-    _, entries, paths, tops = parse(script)
+    _, _, paths, tops = parse(script)
+    groups = parse_groups(script)
+    entries = accepted(groups)     # the union of all accepted includes: what the iff is computed from
     keys = [k for k, _ in entries]
-    dup = len(set(keys)) != len(keys)
     p1, flag, d1, r1, f1 = w["l1"]
     p2, d2, r2, f2 = w["l2"]
     if p1 is not None:
@@ -438,22 +475,20 @@ def monitor(script, out):
     if p2 is not None:
         return "include_cfg / node creation panicked"
     for path, a, b in zip(paths, d1, d2):
-        if sorted(a) != sorted(b):
-            return "module %s: property set depends on the include order (%d nodes before include_cfg)" % (_s(path), script[0])
-    if dup:
-        # not a YAML mapping: the text must be rejected and nobody receives anything
-        if flag != 5:
-            return "configuration with a repeated key was accepted"
-        if any(d for d in d1):
-            return "rejected configuration still produced properties"
-    else:
-        if flag != 0:
-            return "configuration text was rejected by the YAML parser"
-        if all(wf_key(k) for k in keys):
-            for path, a in zip(paths, d1):
-                m = check_capture(entries, path, a, "props")
-                if m:
-                    return m
+        if sorted(k for k, _ in a) != sorted(k for k, _ in b):
+            return "module %s: property set depends on when the configurations are included relative to node creation: %s vs %s" % (
+                _s(path), sorted(_s(k) for k, _ in a), sorted(_s(k) for k, _ in b))
+    if len(flag) != len(groups):
+        return "malformed output: %d include flags for %d includes" % (len(flag), len(groups))
+    for (at, es), fl in zip(groups, flag):
+        ks = [k for k, _ in es]
+        if (len(set(ks)) != len(ks)) != (fl == 5):
+            return "include %s: YAML parser verdict %d does not match 'a repeated key is rejected'" % ([_s(k) for k in ks], fl)
+    if all(wf_key(k) for k in keys):
+        for path, a, b in zip(paths, d1, d2):
+            m = check_capture(entries, path, a, "props") or check_capture(entries, path, b, "des")
+            if m:
+                return m
     if paths:
         return (check_typed(entries, paths, d1, tops, r1, f1, "props") or
                 check_typed(entries, paths, d2, tops, r2, f2, "des"))
@@ -461,13 +496,17 @@ def monitor(script, out):
 
 
 def known_class(script, out, model_out):
-    """known finding entry_at_wildcard_prefix: the configuration contains two keys K and K.<any>.R"""
+    """known finding entry_at_wildcard_prefix: one include contains two keys K and K.<any>.R"""
     if not valid(script):
         return None
-    _, entries, _, _ = parse(script)
-    keys = [k for k, _ in entries]
-    if len(set(keys)) == len(keys) and all(wf_key(k) for k in keys) and has_known_pair(keys):
-        return "entry_at_wildcard_prefix"
+    groups = parse_groups(script)
+    keys = [k for k, _ in accepted(groups)]
+    if not all(wf_key(k) for k in keys):
+        return None
+    for _, es in groups:
+        ks = [k for k, _ in es]
+        if len(set(ks)) == len(ks) and has_known_pair(ks):
+            return "entry_at_wildcard_prefix"
     return None
 
 
@@ -618,11 +657,53 @@ def gen_late(rng):
     return join([inc], ops)
 
 
+def gen_multi(rng):
+    """the entries are partitioned into 2..4 separate includes, each issued at its own point of the node-creation
+    sequence; wildcard entries that share the text in front of their first '<any>' are put into different includes
+    and (mostly) a module they address is created after both"""
+    base = gen_script(rng, malformed=False)
+    inc, entries, paths, _ = parse(base)
+    hdr, ops = split(base)
+    tail = [o for o in ops if o[0] in (3, 4, 5)]
+    n = len(paths)
+    ng = rng.randint(2, 4)
+    groups = [[] for _ in range(ng)]
+    keys = set(k for k, _ in entries)
+    for e in entries:
+        groups[rng.randrange(ng)].append(e)
+    val = 700
+    target = None
+    for _ in range(rng.randint(1, 3)):
+        target = rng.randrange(n)
+        segs = paths[target].split(b".")
+        d = rng.randrange(len(segs))
+        front = segs[:d] + [ANY] + [ANY if rng.random() < 0.2 else x for x in segs[d + 1:]]
+        ga, gb = rng.sample(range(ng), 2)
+        for g in (ga, gb, rng.randrange(ng)):
+            k = b".".join(front + [rng.choice(PROPS)])
+            if k not in keys:
+                keys.add(k); groups[g].append((k, val)); val += 1
+    ats = [rng.randint(0, n) for _ in range(ng)]
+    if target is not None and rng.random() < 0.7:
+        ats = [rng.randint(0, target) for _ in range(ng)]     # the addressed module is created after all includes
+        if rng.random() < 0.5:
+            ats[rng.randrange(ng)] = rng.randint(0, n)
+    out = []
+    for g in range(ng):
+        if g > 0:
+            out.append(e_group(ats[g]))
+        out += [e_entry(k, v) for k, v in groups[g]]
+    out += [e_module(p) for p in paths] + tail
+    return join([ats[0]], out)
+
+
 def gen(rng, n):
     for i in range(n):
         c = rng.random()
-        if c < 0.25:
+        if c < 0.22:
             yield gen_late(rng)
+        elif c < 0.54:
+            yield gen_multi(rng)
         else:
             yield gen_script(rng, malformed=(c > 0.88))
 
@@ -682,6 +763,21 @@ def mechanisms(script, out):
         if inc == 0: m.add("include_before_nodes")
         elif inc >= len(paths): m.add("include_after_nodes")
         else: m.add("include_between_nodes")
+    groups = parse_groups(script)
+    if len(groups) > 1:
+        m.add("several_includes")
+
+        def front(k):
+            return k.split(ANY)[0]
+        for i, (_, a) in enumerate(groups):
+            for j, (_, b) in enumerate(groups):
+                if i < j and any(ANY in k1 and ANY in k2 and front(k1) == front(k2) for k1, _ in a for k2, _ in b):
+                    m.add("wildcards_sharing_prefix_in_different_includes")
+        for i in range(len(paths)):
+            if sum(1 for at, es in groups if es and min(at, len(paths)) <= i) >= 2:
+                m.add("node_created_after_two_includes")
+        if any(min(at, len(paths)) > 0 for at, _ in groups) and any(min(at, len(paths)) < len(paths) for at, _ in groups):
+            m.add("includes_interleaved_with_nodes")
     acc = {}   # (module, name) -> kinds of access seen before
     for o in tops:
         if o[0] == 3: m.add("typed_read")
